@@ -57,6 +57,8 @@ def build_kwargs(opts, w=None):
         cls = {'OSError': OSError, 'PermissionError': PermissionError}[f.get('cls', 'OSError')]
         kw['fault'] = Fault(f['k'], set(f['kinds']), set(f['phases']),
                             lambda path, cls=cls, code=code: cls(code, 'injected fault', path))
+        if f.get('in_tmp'):
+            kw['fault'].path_in_tmp = True
         if f.get('expect_fail', True):
             kw['run_model'] = False
     if 'schedule' in opts:
